@@ -84,6 +84,8 @@ class ConfigValue:
                     return self.type[s]
                 except KeyError:
                     return self.type[s.upper()]
+        if issubclass(self.type, str):
+            return self.type(s)
         if issubclass(self.type, Mapping):
             return self.type((p2.strip() for p2 in p.strip().split("=")) for p in s.split(","))
         if issubclass(self.type, Iterable):
